@@ -438,6 +438,9 @@ def gen_program(r, nseg, dir0=None):
             ops += ["F", "B", "X", newdir(), "F", "Y", "F",
                     "M %s" % float(r.uniform(0.05, 0.6)).hex()]
         elif k < 0.80:       # set_dir inside a volume, then move
+            if ops and ops[-1] in ("X", "Y") and r.random() < 0.8:
+                # leave the boundary first (a reversal right after crossing is the known finding)
+                ops += ["F", "M %s" % float(r.uniform(0.05, 0.5)).hex()]
             ops += [newdir(), "F", "M %s" % float(r.uniform(0.05, 0.95)).hex()]
         elif k < 0.92:       # limited search
             g = r.choice([0.3, 0.7, 0.999999, 1.0, 1.000001, 1.5, 4.0])
